@@ -443,6 +443,83 @@ pub fn op_buildrep(n: usize, words: &[&str], oracle: bool) -> String {
     }
 }
 
+/// GROW kind k cps.. : a message value that is encoded, then extended *in place* through its public
+/// mutators, then encoded again must give the frame of a freshly constructed equal value (no stale state
+/// may live inside a value: cached lengths, counters). kind = text (1029 ArrayString::try_push), desc (1007
+/// Df88591String::try_push), list (1001 DataVec::push / pop). Oracle only.
+pub fn oracle_grow(kind: &str, k: usize, cps: &[&str]) -> String {
+    use rtcm_rs::msg::*;
+    let s = match string_of(cps) {
+        Some(s) => s,
+        None => return "BAD-OP".into(),
+    };
+    let chars: Vec<char> = s.chars().collect();
+    let k = k.min(chars.len());
+    let enc = |m: &Message| { let mut b = MessageBuilder::new(); res_text(b.build_message(m)) };
+    let r = std::panic::catch_unwind(std::panic::AssertUnwindSafe(|| match kind {
+        "text" => {
+            let mut t = ArrayString::<255>::new();
+            for c in &chars[..k] { let _ = t.try_push(*c); }
+            // the value itself is encoded (not a clone of it), then extended in place
+            let mut msg = Message::Msg1029(Msg1029T { reference_station_id: 7, modified_julian_day_number: 1, seconds_of_day_s: 2, text_str: t });
+            let first = enc(&msg);
+            let before = enc(&msg);
+            let mut whole = ArrayString::<255>::new();
+            for c in &chars[..k] { let _ = whole.try_push(*c); }
+            let mut ok_all = true;
+            for c in &chars[k..] {
+                let a = if let Message::Msg1029(ref mut m) = msg { m.text_str.try_push(*c).is_ok() } else { false };
+                let b = whole.try_push(*c).is_ok();
+                ok_all &= a == b;
+            }
+            let grown = enc(&msg);
+            let fresh = enc(&Message::Msg1029(Msg1029T { reference_station_id: 7, modified_julian_day_number: 1, seconds_of_day_s: 2, text_str: whole }));
+            (first == before && ok_all, grown, fresh)
+        }
+        "desc" => {
+            let mut t = Df88591String::<31>::new();
+            for c in &chars[..k] { let _ = t.try_push(*c); }
+            let mut msg = Message::Msg1007(Msg1007T { reference_station_id: 7, antenna_descriptor_str: t, antenna_setup_id: 3 });
+            let first = enc(&msg);
+            for c in &chars[k..] { if let Message::Msg1007(ref mut m) = msg { let _ = m.antenna_descriptor_str.try_push(*c); } }
+            let grown = enc(&msg);
+            let whole: String = chars.iter().collect();
+            let fresh = enc(&Message::Msg1007(Msg1007T { reference_station_id: 7, antenna_descriptor_str: Df88591String::<31>::from(whole.as_str()), antenna_setup_id: 3 }));
+            (!first.is_empty(), grown, fresh)
+        }
+        _ => {
+            // list: k satellites, encode, push the rest (ids from the code points), pop one and push it back
+            let sat = |c: &char| Msg1001Sat { gps_satellite_id: (*c as u32 % 64) as u8, gps_l1_code_ind: 1, l1_pseudorange_m: Some(20000.0 + (*c as u32 % 1000) as f64),
+                                              l1_phase_pseudorange_diff_m: Some(0.5), l1_lock_time_index: 5 };
+            let n = chars.len().min(31);
+            let mut m = Msg1001T { reference_station_id: 7, gps_epoch_time_ms: 1000, synchronous_gnss_msg_flag: 0, divergence_free_smoothing_flag: 0,
+                                   smoothing_interval_index: 0, satellites: Default::default() };
+            for c in &chars[..k.min(n)] { m.satellites.push(sat(c)); }
+            let mut msg = Message::Msg1001(m);
+            let first = enc(&msg);
+            if let Message::Msg1001(ref mut m) = msg {
+                for c in &chars[k.min(n)..n] { m.satellites.push(sat(c)); }
+                if let Some(x) = m.satellites.pop() { m.satellites.push(x); }
+            }
+            let grown = enc(&msg);
+            let mut f = Msg1001T { reference_station_id: 7, gps_epoch_time_ms: 1000, synchronous_gnss_msg_flag: 0, divergence_free_smoothing_flag: 0,
+                                   smoothing_interval_index: 0, satellites: Default::default() };
+            for c in &chars[..n] { f.satellites.push(sat(c)); }
+            let fresh = enc(&Message::Msg1001(f));
+            (!first.is_empty(), grown, fresh)
+        }
+    }));
+    match r {
+        Err(_) => "FAIL C09 panic while growing a value in place".into(),
+        Ok((stable, grown, fresh)) => {
+            if !stable { return "FAIL C01 encoding a value twice gives different frames, or in-place and fresh construction disagree".into(); }
+            if grown == fresh { "PASS".into() } else {
+                format!("FAIL C01 value extended in place after an encode gives {} ; a fresh equal value gives {}", &grown[..grown.len().min(70)], &fresh[..fresh.len().min(70)])
+            }
+        }
+    }
+}
+
 /// One element of a BUILDSEQG session: a typed message, or `G <number> <seed>` = the crate's second build
 /// entry point `build_generated_message` (feature `test_gen`, on by default) with seeded generators.
 enum Step { Msg(Message), Gen(u16, u64) }
